@@ -100,6 +100,9 @@ typedef struct scen {
 // investigation aid (default off = strict): signatures listed in the
 // environment variable C15_TOLERATE are logged instead of ending the
 // execution, so that histories behind an already known defect get explored
+// recorded in known_findings.json (cannot be repaired without breaking the
+// pinned test test_resp_ctx_send_nonblock): reported, but exploration goes on
+#define KNOWN_SOFT "C15:respondent:send:readable-but-eagain"
 static const char *g_tolerate;
 static int
 tolerated(const char *sig)
@@ -111,6 +114,8 @@ tolerated(const char *sig)
 		const char *sig_ = (sig);                \
 		if (tolerated(sig_))                     \
 			vs_log("TOLERATED %s", sig_);    \
+		else if (!strcmp(sig_, KNOWN_SOFT))      \
+			vs_soft_fail(sig_, __VA_ARGS__); \
 		else                                     \
 			vs_fail(sig_, __VA_ARGS__);      \
 	} while (0)
